@@ -134,8 +134,12 @@ fn authorized(view: &MView, author: char, kind: &str, member: char) -> bool {
 
 /// Reports a violation and keeps a per-signature tally (the violation list itself is capped).
 fn viol(out: &mut Outcome, property: &str, signature: &str, detail: String, case: Value) {
-    out.count(&format!("violation:{signature}"));
-    out.violation(property, signature, detail, case);
+    let key = format!("violation:{signature}");
+    out.count(&key);
+    // at most 3 full reports per class, so that every class gets into the (capped) list; all are counted
+    if out.counters[&key] <= 3 {
+        out.violation(property, signature, detail, case);
+    }
 }
 
 struct History {
@@ -223,6 +227,7 @@ struct Explorer<'a> {
     process_calls: u64,
     extensions: u64,
     failed: bool,
+    stop_on_view_mismatch: bool,
 }
 
 impl Explorer<'_> {
@@ -275,8 +280,12 @@ impl Explorer<'_> {
                                 format!("after {done:?}: replica reports {real:?}, specification says {spec:?}"),
                                 self.case.clone(),
                             );
-                            self.failed = true;
-                            return;
+                            // a wrong state is C31's business; the exploration goes on so that the
+                            // attempts of C33 are still judged at every view of this history
+                            if self.stop_on_view_mismatch {
+                                self.failed = true;
+                                return;
+                            }
                         }
                         Some(_) => {}
                         None => {
@@ -470,7 +479,7 @@ fn replay(args: &Args) {
     for (n, (b, h)) in cases.iter().zip(parsed.iter()).enumerate() {
         out.eval();
         let accepted: Vec<u32> = h.ops.iter().filter(|(_, ok)| *ok).map(|(o, _)| o.id).collect();
-        let mut ex = Explorer { h, case: b, accepted: accepted.clone(), seen: HashMap::new(), leaves: Vec::new(), process_calls: 0, extensions: 0, failed: false };
+        let mut ex = Explorer { h, case: b, accepted: accepted.clone(), seen: HashMap::new(), leaves: Vec::new(), process_calls: 0, extensions: 0, failed: false, stop_on_view_mismatch: focus_c31 };
         let init = Crdt::init();
         ex.explore(&init, &mut Vec::new(), &mut out);
         out.count_by("process_calls", ex.process_calls);
